@@ -5,7 +5,7 @@
     the same bipartition, hence [usplits] lists one split per branch with its own length and
     support). *)
 From Coq Require Import String ZArith QArith Bool Arith List.
-From GT Require Import Base.UTree Spec.Obs Spec.Contract Model.Reroot Model.Collapse Proofs.CollapseOracleFull.
+From GT Require Import Base.UTree Spec.Obs Spec.Contract Model.Reroot Model.Collapse Proofs.CollapseOracleFull Proofs.OracleMeaning.
 Import ListNotations.
 Local Close Scope Q_scope.
 
@@ -37,3 +37,52 @@ Theorem C07_oracle_accepts_resolve :
   forall t cs, unrooted t -> resolve_ok t (resolve t cs) = None.
 Proof. exact resolve_oracle_accepts. Qed.
 Print Assumptions C07_oracle_accepts_resolve.
+
+(** * what the oracle functions say *)
+(** [collapse_ok cr t g = None] iff g is well formed, has the tips of t, and its splits are exactly
+    the expected ones (tip splits, the root split of a rooted tree, inner splits not satisfying the
+    criterion), each found with the same length and support, and conversely *)
+Theorem C07_collapse_ok_meaning :
+  forall cr t g,
+  collapse_ok cr t g = None <->
+  wf g = true /\ sset_eqb (ssort (leaves t)) (ssort (leaves g)) = true /\
+  same_splits (expected_after_collapse cr t) (usplits g).
+Proof. exact collapse_ok_meaning. Qed.
+Print Assumptions C07_collapse_ok_meaning.
+
+(** [resolve_ok t g = None] iff g is well formed, has the tips of t, is fully binary, contains
+    every split of t with its length and support, every other split has length 0 and no support,
+    and the distance matrices are equal *)
+Theorem C07_resolve_ok_meaning :
+  forall t g,
+  resolve_ok t g = None <->
+  wf g = true /\ sset_eqb (ssort (leaves t)) (ssort (leaves g)) = true /\
+  (Forall (fun x => degree x <= 3) (nodes g) /\ no_single g = true /\ 2 <= degree g) /\
+  (forall s, In s (usplits t) -> exists s', find_split (sside s) (usplits g) = Some s' /\ same_len_sup s s' = true) /\
+  (forall s', In s' (usplits g) -> find_split (sside s') (usplits t) = None ->
+              qeqb (slen s') 0%Q = true /\ qeqb (ssup s') nilv = true) /\
+  matrix_eqb (dist_matrix len0 t) (dist_matrix len0 g) = true.
+Proof. exact resolve_ok_meaning. Qed.
+Print Assumptions C07_resolve_ok_meaning.
+
+(** * non-vacuity: (a,b,(c,d,(e,f)0.9:0)0.2:2,g,h) is in the domain; the oracle really removes and keeps *)
+Local Open Scope string_scope.
+Definition ox (n : string) : slot := Some (mkE 1%Q nilv nilv [], UNode n [] [None]).
+Definition oxt : utree :=
+  UNode "" [] [ox "a"; ox "b";
+               Some (mkE 2 (1#5) nilv [], UNode "" [] [None; ox "c"; ox "d";
+                     Some (mkE 0 (9#10) nilv [], UNode "" [] [None; ox "e"; ox "f"])]);
+               ox "g"; ox "h"]%Q.
+Example C07_unrooted_dom_inhabited :
+  unrooted oxt /\ length (usplits oxt) = 10 /\
+  length (usplits (collapse_len 0%Q false false oxt)) = 9 /\
+  length (usplits (collapse_sup (1#2)%Q false oxt)) = 9 /\
+  length (usplits (resolve oxt [0; 1; 0; 0; 1; 0; 2; 3])) = 13.
+Proof.
+  split; [|vm_compute; repeat split; reflexivity].
+  unfold unrooted, CompareDomain.unrooted, IndexSplit.good. repeat split; try reflexivity.
+  - vm_compute. auto.
+  - vm_compute. repeat constructor; simpl; intuition discriminate.
+  - vm_compute. auto.
+Qed.
+Print Assumptions C07_unrooted_dom_inhabited.
